@@ -4,7 +4,7 @@ single occurrence under the invariant).
 -/
 import PsdVerif.Lemmas.TreeBasic
 
-namespace PsdVerif.Tree
+namespace PsdVerif.TreeSt
 
 theorem reach_cont {s : State} (hc : ∀ c, s.children c ≠ [] → s.cont c = true) {c x : Id}
     (r : Reach s c x) : s.cont c = true := by
@@ -208,4 +208,4 @@ theorem descF_nodup {s : State} (i : Inv s) (f : Nat) (g : Id) (ds : List Id) (h
     exact nodup_descList i g (descF s f)
       (fun c ds' h' => ⟨ih c ds' h', mem_descF_iff i.contOnly f c ds' h'⟩) _ _ (fun _ h => h) (i.nodup g) h
 
-end PsdVerif.Tree
+end PsdVerif.TreeSt
